@@ -14,13 +14,13 @@ enum { VD_NONE = 0, VD_EQUAL, VD_NULL, VD_DIFFERENT, VD_DIRTY_PADDING, VD_ACCEPT
 static const char *vd_names[VD_N] = { "none", "equal", "null", "different_matrix", "dirty_padding", "accepted_unsupported", "leak", "write_failure_reported", "write_ok", "wrong_dimensions", "accepted_malformed" };
 
 /* ---------- reach probes ---------- */
-#define NPROBE 41
+#define NPROBE 43
 static const char *probe_names[NPROBE] = {
   "torn_in_signature", "torn_in_IHDR", "torn_in_tEXt", "torn_in_IDAT", "torn_in_IEND", "torn_at_chunk_boundary",
   "flip_in_length", "flip_in_type", "flip_in_data", "flip_in_crc", "flip_in_signature",
   "eio_on_png_read", "short_reads_roundtrip", "foreign_depth1", "foreign_depth2", "foreign_depth4", "foreign_depth8", "foreign_depth16",
   "foreign_gray", "foreign_palette", "foreign_rgb", "foreign_rgba", "foreign_gray_alpha", "foreign_interlaced",
-  "jcf_index0", "jcf_positive_first", "jcf_index_too_large", "jcf_too_many_rows", "jcf_bad_modulus", "jcf_short_header", "jcf_negative_dims", "jcf_huge_dims", "jcf_torn", "jcf_valid",
+  "jcf_index0", "jcf_positive_first", "jcf_index_too_large", "jcf_too_many_rows", "jcf_bad_modulus", "jcf_short_header", "jcf_negative_dims", "jcf_huge_dims", "jcf_torn", "jcf_valid", "jcf_garbage_token", "jcf_long_min",
   "write_enospc", "write_open_fail", "write_close_fail", "roundtrip_plain", "from_str", "jcf_eio", "torn_between_IDAT_chunks" };
 static uint64_t probes[NPROBE];
 static int probe_id(const char *n) { for (int i = 0; i < NPROBE; i++) if (!strcmp(probe_names[i], n)) return i; return -1; }
@@ -35,7 +35,8 @@ static int scan_long(const char **pp, const char *end, long *out) { /* scanf("%l
   const char *s = p;
   int neg = 0;
   if (*p == '-' || *p == '+') { neg = *p == '-'; p++; }
-  if (p >= end || *p < '0' || *p > '9') { (void)s; return 0; } /* matching failure */
+  if (p >= end) return -1; /* a lone sign at the very end: the file was cut inside a token, indistinguishable from EOF */
+  if (*p < '0' || *p > '9') { (void)s; return 0; } /* matching failure */
   long v = 0;
   int digits = 0;
   while (p < end && *p >= '0' && *p <= '9') { if (digits < 18) v = v * 10 + (*p - '0'); digits++; p++; }
@@ -57,11 +58,13 @@ static jref_t jcf_reference(const unsigned char *data, size_t len) {
   r.m = m; r.n = n;
   r.bits = (unsigned char *)calloc((size_t)(m * n) + 1, 1);
   long i = -1, j;
-  while (scan_long(&p, end, &j) == 1) {
+  int rc;
+  while ((rc = scan_long(&p, end, &j)) == 1) {
     if (j < 0) { i++; j = -j; }
     if (j == 0 || j > n || i < 0 || i >= m) { r.reject = 1; free(r.bits); r.bits = NULL; return r; }
     r.bits[i * n + (j - 1)] = 1;
   }
+  if (rc == 0) { r.reject = 1; free(r.bits); r.bits = NULL; } /* something that is not a number where an entry should be: corrupted data */
   return r;
 }
 
@@ -504,8 +507,8 @@ static void run_case(uint64_t seed, uint64_t idx, const char *tier, const char *
     }
     sb_printf(&tx, "%d %d 2\n%d\n\n%s", m, n, nnz, body.s);
     /* the variants */
-    const char *classes[] = { "jcf_valid", "jcf_index0", "jcf_positive_first", "jcf_index_too_large", "jcf_too_many_rows", "jcf_bad_modulus", "jcf_short_header", "jcf_negative_dims", "jcf_huge_dims", "jcf_torn", "jcf_eio" };
-    for (int cl = 0; cl < 11; cl++) {
+    const char *classes[] = { "jcf_valid", "jcf_index0", "jcf_positive_first", "jcf_index_too_large", "jcf_too_many_rows", "jcf_bad_modulus", "jcf_short_header", "jcf_negative_dims", "jcf_huge_dims", "jcf_torn", "jcf_eio", "jcf_garbage_token", "jcf_long_min" };
+    for (int cl = 0; cl < 13; cl++) {
       int reps = (cl == 9) ? (thorough ? 60 : 20) : (cl == 10 ? 6 : 1);
       for (int rep = 0; rep < reps; rep++) {
         sbuf_t v = { 0 };
@@ -528,9 +531,23 @@ static void run_case(uint64_t seed, uint64_t idx, const char *tier, const char *
         case 5: sb_printf(&v, "%d %d %d\n%d\n\n%s", m, n, 3 + (int)rng_below(&rg, 5), nnz, body.s); break;
         case 6: { const char *hs[] = { "", "12", "12 13", "12 13 2", "x y z", "12 13 2 q" }; sb_printf(&v, "%s", hs[rng_below(&rg, 6)]); break; }
         case 7: { int wch = (int)rng_below(&rg, 3); sb_printf(&v, "%d %d 2\n%d\n\n%s", wch != 1 ? -m : m, wch != 0 ? -n : n, nnz, body.s); break; }
-        case 8: sb_printf(&v, "%d %d 2\n%d\n\n%s", 30000 + (int)rng_below(&rg, 10000), 30000 + (int)rng_below(&rg, 10000), nnz, body.s); break;
+        case 8:
+          if (rng_chance(&rg, 1, 2)) sb_printf(&v, "%d %d 2\n%d\n\n%s", 30000 + (int)rng_below(&rg, 10000), 30000 + (int)rng_below(&rg, 10000), nnz, body.s);
+          else { /* dimensions whose number of words is a multiple of 2^32, or just above one: an allocation size computed in 32 bits comes out as 0 or tiny */
+            long hd[][2] = { { 524288, 524288 }, { 1048576, 262144 }, { 262144, 1048576 }, { 2097152, 131072 }, { 1048577, 262144 }, { 524289, 524288 } };
+            int w = (int)rng_below(&rg, 6);
+            sb_printf(&v, "%ld %ld 2\n%d\n\n-1\n-%ld\n-7\n", hd[w][0], hd[w][1], 3, hd[w][1]);
+          }
+          break;
         case 9: sb_printf(&v, "%s", tx.s); cut = (long)rng_below(&rg, tx.n + 1); break;
         case 10: sb_printf(&v, "%s", tx.s); cut = (long)rng_below(&rg, tx.n + 1); ioerr = 1; break;
+        case 11: { /* corrupted data: something that is not a number among the entries (the rest of the file is valid) */
+          const char *junk[] = { "xyz", "1.5e", "--3", "0x", "#", "\\" };
+          size_t half = body.n / 2; while (half < body.n && body.s[half] != '\n') half++;
+          sb_printf(&v, "%d %d 2\n%d\n\n%.*s\n%s\n%s", m, n, nnz, (int)half, body.s, junk[rng_below(&rg, 6)], half < body.n ? body.s + half + 1 : "");
+          break;
+        }
+        case 12: sb_printf(&v, "%d %d 2\n%d\n\n%s\n", m, n, 1, rng_chance(&rg, 1, 2) ? "-9223372036854775808" : "-9223372036854775807"); break;
         }
         probe(classes[cl]);
         /* the file is written through an escaped rawfile line when short, else through a helper file line per 400 bytes: keep it simple: split */
